@@ -168,14 +168,14 @@ pub fn svgdx_doc(rng: &mut Rng, with_root: bool) -> String {
         let xy = format!("{} {}", 12 * i, rng.below(30));
         match rng.below(11) {
             10 => body.push_str(&embedded(rng)),
-            0 => body.push_str(&format!("  <rect {} {} {}/>\n", in_attr(rng, "xy", &xy), in_attr(rng, "wh", "10 6"), hattr(rng, "text", 6))),
+            0 => body.push_str(&format!("  <rect {} {} {}{}/>\n", in_attr(rng, "xy", &xy), in_attr(rng, "wh", "10 6"), hattr(rng, "text", 6), if rng.chance(1, 3) { format!(" {}", hattr(rng, "class", 3)) } else { String::new() })),
             1 => body.push_str(&format!("  <text {}>{}</text>\n", in_attr(rng, "xy", &xy), htext(rng, 6))),
             2 => body.push_str(&format!("  <rect {} {}><![CDATA[{}]]></rect>\n", in_attr(rng, "xy", &xy), in_attr(rng, "wh", "8"), hostile(rng, 5).replace("]]>", "]] >"))),
             3 => body.push_str(&format!("  <circle {} {} {}/>\n", in_attr(rng, "cxy", &xy), in_attr(rng, "r", "4"), hattr(rng, "_", 5))),
             4 => body.push_str(&format!("  <rect {} {} {} {}/>\n", in_attr(rng, "xy", &xy), in_attr(rng, "wh", "5"), hattr(rng, "__", 5), hattr(rng, "data-x", 5))),
             5 => body.push_str(&format!("  <!--{}-->\n", comment_text(rng))),
             6 => { let css = format!("g > rect {{ fill: red; }} /* {} */", hostile(rng, 3)); body.push_str(&format!("  <style>{}</style>\n", in_text(rng, &css))) }
-            7 => body.push_str(&format!("  <g {}><rect {} {} {}/> {} </g>\n", in_attr(rng, "class", "d-red  x"), in_attr(rng, "xy", &xy), in_attr(rng, "wh", "3"), in_attr(rng, "id", &format!("i{i}")), htext(rng, 3))),
+            7 => body.push_str(&format!("  <g {}><rect {} {} {}/> {} </g>\n", if rng.chance(1, 2) { in_attr(rng, "class", "d-red  x") } else { let h = format!("d-red {}", hostile(rng, 3)); in_attr(rng, "class", &h) }, in_attr(rng, "xy", &xy), in_attr(rng, "wh", "3"), in_attr(rng, "id", &format!("i{i}")), htext(rng, 3))),
             8 => body.push_str(&format!("  <title>{}</title>\n", htext(rng, 4))),
             _ => body.push_str(&format!("  <line {} {} {} {}/>\n", in_attr(rng, "xy1", &xy), in_attr(rng, "xy2", "40 40"), hattr(rng, "text", 3), in_attr(rng, "class", "d-arrow d-dash"))),
         }
